@@ -96,28 +96,25 @@ impl Backend for ShapeBucket {
                 let max = max_keys.unwrap_or(1000);
                 let mut objects = Vec::new();
                 let mut truncated = false;
-                // prefix "SITE/V/"
-                let parts: Vec<&str> = prefix.split('/').collect();
-                if parts.len() == 3 && parts[0] == self.site && parts[2].is_empty() {
-                    if let Ok(v) = parts[1].parse::<usize>() {
-                        // S3 matches string prefixes: "SITE/9/" only matches directory 9
-                        if parts[1] == v.to_string() {
-                            if let Some(age) = self.shape.age(v) {
-                                let start = self.first_chunk_ms(age);
-                                let k = self.chunk_count(v);
-                                let shown = k.min(max);
-                                truncated = k > max;
-                                for i in 1..=shown {
-                                    objects.push(ListedObject {
-                                        key: format!("{}/{}/{}", self.site, v, chunk_name(start, i)),
-                                        last_modified: s3sim::rfc3339_ms(
-                                            start + (i as i64 - 1) * 5000,
-                                            self.fraction,
-                                        ),
-                                        size: (10_000 + i * 13).to_string(),
-                                    });
-                                }
+                // S3 matches plain string prefixes over keys in byte order
+                'dirs: for v in s3sim::matching_dirs(&self.site, prefix) {
+                    if let Some(age) = self.shape.age(v) {
+                        let start = self.first_chunk_ms(age);
+                        let k = self.chunk_count(v);
+                        for i in 1..=k {
+                            let key = format!("{}/{}/{}", self.site, v, chunk_name(start, i));
+                            if !key.starts_with(prefix.as_str()) {
+                                continue;
                             }
+                            if objects.len() == max {
+                                truncated = true;
+                                break 'dirs;
+                            }
+                            objects.push(ListedObject {
+                                key,
+                                last_modified: s3sim::rfc3339_ms(start + (i as i64 - 1) * 5000, self.fraction),
+                                size: (10_000 + i * 13).to_string(),
+                            });
                         }
                     }
                 }
@@ -179,8 +176,8 @@ impl Check for C15 {
     fn plan(&self, tier: Tier) -> Vec<Section> {
         match tier {
             Tier::Quick => vec![
-                Section { name: "all-shapes-sizes-1..=16", runs: small_total(16) },
-                Section { name: "production-size-seeded", runs: 20_000 },
+                Section { name: "all-shapes-sizes-1..=24", runs: small_total(24) },
+                Section { name: "production-size-seeded", runs: 40_000 },
                 Section { name: "production-size-faults", runs: 3_000 },
             ],
             Tier::Thorough => vec![
@@ -220,7 +217,7 @@ impl Check for C15 {
     fn run(&self, p: &Params, tape: &mut Tape, ctx: &mut Ctx) {
         // ---- the case
         let (shape, faults) = match (p.tier, p.section) {
-            (Tier::Quick, 0) => (small_shape(p.index, 16), false),
+            (Tier::Quick, 0) => (small_shape(p.index, 24), false),
             (Tier::Thorough, 0) => (small_shape(p.index, 64), false),
             (Tier::Thorough, 1) => (
                 Shape { n: 999, p: (p.index / 1000) as usize + 1, c: (p.index % 1000) as usize },
@@ -253,7 +250,7 @@ impl Check for C15 {
         let jitter_seed = tape.seed();
         let fraction = tape.draw(2) == 1;
         let (fail_rate, latency_max_ms, budget) = if faults {
-            ((1 + tape.draw(3), 40), tape.draw(3) * 700, 1 + tape.draw(3))
+            ((1 + tape.draw(2), 150), tape.draw(3) * 700, 1 + tape.draw(3))
         } else {
             ((0, 1), 0, 0)
         };
